@@ -518,3 +518,113 @@ def check_forwarding_reach(ix, rep, rule='R-FWD'):
                          'period, so its bounds are counted in the wrong number of samples (or rejected as not a multiple)' % (mname, a, ', '.join(combined[:2]), ' and '.join(attrs), why),
                          (problems[0][0].lineno if problems else f.node.lineno))
     return n
+
+
+def check_counted_getters(ix, rep, rule='R-FWD'):
+    """a quantity the interpreters count themselves (assigned in a method that is neither a constructor, a setter nor reset) lives in each
+    interpreter separately.  The specification's getter for it is executed here for an object that holds every interpreter (tests on the
+    presence and kind of an interpreter taken as true): the read of each interpreter's count has to be reached."""
+    from sa import flow
+    spec, per_class = _interp_attrs(ix)
+    attrs = sorted(set().union(*per_class.values()))
+    combined = sorted(c for c, a in per_class.items() if len(a) > 1)
+    dti = ix.find_class('rtamt.semantics.discrete_time_interpreter', 'DiscreteTimeInterpreter')
+    if dti is None:
+        raise AnalysisError('DiscreteTimeInterpreter vanished')
+    counted = {}
+    for c in [dti] + list(ix.subclasses_of(dti)):
+        for mname, f in c.methods.items():
+            if mname in ('__init__', 'reset') or mname.startswith('set_') or any(ast.unparse(d).endswith('.setter') for d in f.node.decorator_list):
+                continue
+            for st in ast.walk(f.node):
+                tg = st.targets if isinstance(st, ast.Assign) else [st.target] if isinstance(st, ast.AugAssign) else []
+                for t in tg:
+                    if isinstance(t, ast.Attribute) and isinstance(t.value, ast.Name) and t.value.id == 'self' and 'counter' in t.attr and 'update_counter' != t.attr:
+                        counted.setdefault(t.attr, f)
+    n = 0
+    for y, writer in sorted(counted.items()):
+        getters = [f for c in [spec] for nm, f in c.methods.items() if nm == y and not any(ast.unparse(d).endswith('.setter') for d in f.node.decorator_list)]
+        for g in getters:
+            rep.analysed(g)
+            cfg = flow.CFG(g.node)
+            seen = set()
+            stack = [cfg.entry]
+            while stack:
+                k = stack.pop()
+                if k in seen:
+                    continue
+                seen.add(k)
+                st = cfg.stmt[k]
+                if isinstance(st, ast.If) and cfg.kind[k] == 'if':
+                    t = ast.unparse(st.test)
+                    about = [a for a in attrs if a in t]
+                    positive = about and not any(isinstance(x, ast.Not) for x in ast.walk(st.test)) and ('hasattr' in t or 'isinstance' in t or 'is not None' in t)
+                    if positive:
+                        stack.append(cfg.node(st.body[0]))
+                        continue
+                stack.extend(cfg.succ[k])
+            for a in attrs:
+                n += 1
+                reads = [x for k in seen if cfg.stmt[k] is not None for x in ast.walk(cfg.stmt[k] if not isinstance(cfg.stmt[k], (ast.If, ast.For, ast.While)) else cfg.stmt[k].test if isinstance(cfg.stmt[k], (ast.If, ast.While)) else cfg.stmt[k].iter)
+                         if isinstance(x, ast.Attribute) and x.attr == y and ast.unparse(x.value) == 'self.%s' % a]
+                slot = '%s<=%s' % (y, a)
+                if reads:
+                    rep.ok(rule, g.module.rel, g.qual, slot, 'read on an object that holds every interpreter', reads[0].lineno)
+                else:
+                    rep.fail(rule, g.module.rel, g.qual, slot, 'each interpreter counts for itself (%s assigns self.%s), and on an object that holds %s (%s) the getter returns before it '
+                             'reads self.%s.%s: the gaps counted by that interpreter are never reported -- the specification reads 0 after %s' % (
+                                 writer.qual, y, ' and '.join(attrs), ', '.join(combined[:2]), a, y, 'evaluate()' if 'offline' in a else 'update()'), g.node.lineno)
+    return n
+
+
+def check_interpreter_ownership(ix, rep, rule='R-CONFIG'):
+    """what set_sampling_period()/the semantics argument configured lives in the interpreter object the specification was constructed
+    with.  (a) only a constructor binds an interpreter attribute -- a method that installs another interpreter object drops the period,
+    unit and tolerance the user set, and the monitor continues with the defaults; (b) every normal exit of the specification's reset()
+    passes through the reset() of its online interpreter."""
+    from sa import flow
+    spec, per_class = _interp_attrs(ix)
+    attrs = sorted(set().union(*per_class.values()))
+    n = 0
+    for c in [spec] + sorted(ix.subclasses_of(spec), key=lambda k: k.name):
+        if ix.unimportable(c.module):
+            continue
+        for mname, f in sorted(c.methods.items()):
+            if mname == '__init__':
+                continue
+            for st in ast.walk(f.node):
+                tg = st.targets if isinstance(st, (ast.Assign, ast.Delete)) else [st.target] if isinstance(st, (ast.AugAssign, ast.AnnAssign)) else []
+                for t in tg:
+                    if isinstance(t, ast.Attribute) and isinstance(t.value, ast.Name) and t.value.id == 'self' and t.attr in attrs:
+                        n += 1
+                        rep.fail(rule, f.module.rel, f.qual, 'rebinds:%s' % t.attr, '%s() installs another object as self.%s: the sampling period, unit and tolerance given to '
+                                 'set_sampling_period() (and the semantics the interpreter was created with) are stored in the interpreter object and are gone -- the monitor goes on '
+                                 'with a period of 1 s' % (mname, t.attr), st.lineno)
+                if isinstance(st, ast.Call) and isinstance(st.func, ast.Name) and st.func.id == 'setattr' and len(st.args) >= 2 and isinstance(st.args[1], ast.Constant) \
+                        and st.args[1].value in attrs:
+                    n += 1
+                    rep.fail(rule, f.module.rel, f.qual, 'rebinds:%s' % st.args[1].value, '%s() installs another object as self.%s through setattr' % (mname, st.args[1].value), st.lineno)
+        if '__init__' in c.methods:
+            n += 1
+            rep.ok(rule, c.module.rel, c.name, 'interpreters-bound-once', 'only the constructor binds %s' % '/'.join(attrs), c.node.lineno)
+        rs = c.methods.get('reset')
+        if rs is not None:
+            rep.analysed(rs)
+            cfg = flow.CFG(rs.node)
+            dom = cfg.dominators()
+
+            def forwards(st):
+                return not isinstance(st, (ast.If, ast.For, ast.While, ast.Try)) and any(
+                    isinstance(x, ast.Call) and isinstance(x.func, ast.Attribute) and x.func.attr == 'reset' and ast.unparse(x.func.value) == 'self.online_interpreter'
+                    for x in ast.walk(st))
+            bad = None
+            for p in cfg.pred[cfg.exit]:
+                if p in cfg.reachable() and not any(cfg.stmt[d] is not None and forwards(cfg.stmt[d]) for d in dom[p]):
+                    bad = cfg.stmt[p] if cfg.stmt[p] is not None else rs.node
+            n += 1
+            if bad is None:
+                rep.ok(rule, rs.module.rel, rs.qual, 'reset:forwards', 'every normal exit passes through self.online_interpreter.reset()', rs.node.lineno)
+            else:
+                rep.fail(rule, rs.module.rel, rs.qual, 'reset:forwards', 'reset() of the specification can return without self.online_interpreter.reset(): the operators keep their '
+                         'history (or, if the interpreter is replaced instead, its settings are lost)', getattr(bad, 'lineno', rs.node.lineno))
+    return n
